@@ -462,6 +462,15 @@ func setRegime(enforced bool) {
 }
 
 func run(c *xs.Ctx, r *xs.Result) {
+	if c.Replay != nil {
+		var rc reorgCase
+		if err := json.Unmarshal(c.Replay, &rc); err == nil && rc.Part == "reorg" {
+			reorgPart(c, r, &rc)
+			return
+		}
+	} else if c.NShards <= 1 || c.Shard == c.NShards-1 {
+		reorgPart(c, r, nil)
+	}
 	w := buildWorld(c)
 	setRegime(true)
 	states := buildStates(c, w)
